@@ -200,6 +200,11 @@ func vC02Run(turns []string, nResp int, class string) {
 	if returned && usable && pend != 0 {
 		fail = "pending-record-left"
 	}
+	if fail == "" {
+		fail = vC02NextCall(e.tr, func(ctx context.Context, out *message.Response) error {
+			return e.s.Invoke(peer.NewCallContext(ctx, e.key), "Echo", vAppMsg("next", nil, ""), out)
+		})
+	}
 	labs := cz.labels()
 	vEmit(vCase{Class: class, Fail: fail, Coq: fmt.Sprintf("CTrace %s [(1, %s)]", vCoqList(labs), obs),
 		Sig:  class + "/" + strings.Join(turns, ""),
@@ -208,6 +213,53 @@ func vC02Run(turns []string, nResp int, class string) {
 		// leave the wedged server behind; the goroutines are parked for good
 		return
 	}
+}
+
+// vC02NextCall makes one more call through invoke on the endpoint whose fake transport is tr, answers it with a reply of
+// its own and reports a failure when the call does not return exactly that reply.
+func vC02NextCall(tr *vFakeTr, invoke func(context.Context, *message.Response) error) string {
+	tr.takeWrites()
+	ctx, cancel := context.WithTimeout(context.Background(), 2*time.Second)
+	defer cancel()
+	out := &message.Response{}
+	done := make(chan error, 1)
+	go func() { done <- invoke(ctx, out) }()
+	var id string
+	seen := vWaitUntil(1500*time.Millisecond, func() bool {
+		for _, w := range tr.peekWrites() {
+			m := &message.Message{}
+			if proto.Unmarshal(w, m) == nil && m.GetRequest() != nil {
+				id = m.GetRequest().GetCallId()
+				return true
+			}
+		}
+		select {
+		case err := <-done:
+			done <- err
+			return true
+		default:
+			return false
+		}
+	})
+	if seen && id != "" {
+		app, _ := proto.Marshal(vAppMsg("next-reply", nil, ""))
+		_ = vFeed(tr, vFrame(&message.Message{Exchange: &message.Message_Response{Response: &message.Response{CallId: id, Payload: app}}}))
+	}
+	select {
+	case err := <-done:
+		if err != nil {
+			return "next-call-fails/" + err.Error()
+		}
+		if out.CallId != "next-reply" {
+			return fmt.Sprintf("next-call-got-the-outcome-of-an-earlier-call/%q", out.CallId)
+		}
+		if id == "" {
+			return "next-call-returned-before-it-was-sent"
+		}
+	case <-time.After(3 * time.Second):
+		return "next-call-hangs"
+	}
+	return ""
 }
 
 // vCausal repairs the one way in which the order of log entries can differ from the order of
@@ -397,6 +449,13 @@ func vC02RunClient(turns []string, nResp int, class string) {
 	}
 	if returned && usable && len(e.pendingIDs()) != 0 {
 		fail = "pending-record-left"
+	}
+	if fail == "" {
+		// whatever the race between the response(s), the context and the caller left behind: the next call on this
+		// connection gets its own reply
+		fail = vC02NextCall(e.tr, func(ctx context.Context, out *message.Response) error {
+			return e.cc.Invoke(ctx, "Echo", vAppMsg("next", nil, ""), out)
+		})
 	}
 	labs := cz.labels()
 	vEmit(vCase{Class: class, Fail: fail, Coq: fmt.Sprintf("CTraceC %s [(1, %s)]", vCoqList(labs), obs),
